@@ -246,7 +246,8 @@ pub fn process_weak_refs(
     worker: &mut GCWorker<SimVM>,
     tracer_context: impl ObjectTracerContext<SimVM>,
 ) -> bool {
-    let info = introspect::gc_info(mmtk());
+    let mut info = introspect::gc_info(mmtk());
+    info.pause = with_world(|w| w.pause.pause_kind);
     let (eph, strong): (Vec<(Ephemeron, bool)>, Vec<(u64, usize)>) = with_world(|w| {
         if !(w.pause.active && w.pause.stopped) {
             violation(
@@ -278,6 +279,11 @@ pub fn process_weak_refs(
             let full = info.nursery != Some(true);
             for id in reach.iter() {
                 if let Some(o) = w.objs.get(id) {
+                    // Objects allocated during concurrent marking are implicitly live (allocated
+                    // black: their lines / treadmill nodes are marked), they are never traced.
+                    if w.satb_new.contains(id) {
+                        continue;
+                    }
                     if full || (o.alloc_pause >= w.pauses_done && matches!(o.sem, SEM_DEFAULT | SEM_LOS)) {
                         strong.push((*id, o.addr));
                     }
@@ -404,9 +410,10 @@ pub fn forward_weak_refs(
 // ---------------------------------------------------------------------------------------------
 
 pub fn on_resume() {
-    let info = introspect::gc_info(mmtk());
+    let mut info = introspect::gc_info(mmtk());
     let step = simrt::step();
     with_world(|w| {
+        info.pause = w.pause.pause_kind;
         if !w.pause.active || !w.pause.stopped {
             violation(
                 "C11",
@@ -582,6 +589,12 @@ pub fn post_pause_walk(w: &mut World, when: &str, info: GcInfo) -> BTreeMap<u64,
     wk.roots(w);
     w.count_n("walk_objects_strong", wk.found.len() as u64);
     let in_gc = w.pause.active;
+    if in_gc && info.pause == 2 {
+        // InitialMark: no closure, no reference processing.  The snapshot S that SATB preserves
+        // is the *strong* closure; weakly reachable objects are not part of it.
+        w.count_n("walk_bytes", wk.bytes);
+        return wk.found;
+    }
     // Must-clear obligations only after a full-heap stop-the-world trace.
     let must_clear = in_gc && w.plan.collects && info.nursery != Some(true) && matches!(info.pause, 0 | 1);
     let pn = w.pause.n;
@@ -742,7 +755,9 @@ pub fn post_pause_walk(w: &mut World, when: &str, info: GcInfo) -> BTreeMap<u64,
                     obj::KIND_PHANTOM => alive_at_soft_weak.contains(rid) || fin_closure.contains(rid),
                     _ => alive_at_soft_weak.contains(rid),
                 };
-                if !was_alive {
+                // (Only after a full-heap trace: a nursery GC may conservatively keep an
+                // unreachable reference object alive through the remembered set -- nepotism.)
+                if !was_alive && must_clear {
                     violation(
                         "C06",
                         "dead-reference-enqueued",
@@ -780,7 +795,7 @@ pub fn post_pause_walk(w: &mut World, when: &str, info: GcInfo) -> BTreeMap<u64,
         }
     }
     // ---- ephemerons
-    if in_gc && !w.ephemerons.is_empty() {
+    if in_gc && !w.ephemerons.is_empty() && info.pause != 2 {
         let cur = w.pause.n;
         let mut model_rounds = 0u32;
         loop {
@@ -840,6 +855,7 @@ fn settle_after_pause(w: &mut World, found: &BTreeMap<u64, usize>, iv: Vec<(usiz
     // InitialMark: snapshot; nothing is reclaimed.  Objects reachable now (S) must survive FinalMark.
     if info.pause == 2 {
         w.satb_active = true;
+        w.satb_new.clear();
         w.satb_keep = found.keys().cloned().collect();
         w.count("satb_snapshots");
         return;
@@ -861,6 +877,7 @@ fn settle_after_pause(w: &mut World, found: &BTreeMap<u64, usize>, iv: Vec<(usiz
         w.count_n("satb_checked", w.satb_keep.len() as u64);
         w.satb_active = false;
         w.satb_keep.clear();
+        w.satb_new.clear();
     }
     let ids: Vec<u64> = w.objs.keys().cloned().collect();
     let mut retained: BTreeSet<u64> = BTreeSet::new();
